@@ -6,7 +6,8 @@ import DadiVerif.Generated.Effects
    the argument tuple whose computation produced it — its own on a miss, an earlier one on a hit.
    c20.inputs <cache>               -> ok <usedParams,…> <keyParams,…>      | err nocache
    c20.memo <cache> <t;t;…>         -> ok <t;t;…>    (t = n,n,… ; for every call the tuple whose value is returned)
-                                       err nocache | err arity -/
+                                       err nocache | err arity
+   c20.flow <function>              -> ok <params,…> <params the alias-flow analysis says may be modified,… | ->   | err noflow -/
 namespace DadiVerif.Driver.Memo
 open DadiVerif
 
@@ -30,8 +31,54 @@ def showTuple (t : List Nat) : String := ",".intercalate (t.map toString)
 def run (mask : List Bool) (ops : List (List Nat)) : List (List Nat) :=
   (Memo.runOps (project mask) (fun t => t) [] ops).2
 
+/-! ### argument-alias flow (effect analysis of the demes front end)
+
+`Gen.Effects.Flow` is the control-flow skeleton of a function with respect to ONE tracked argument object: which local names are
+rebound to a fresh value (`fresh`), to a value that may be the object some other names hold (`alias`), through which names the
+object is written (`mutate`: item store, in-place method, call of a helper whose summary says it modifies that parameter), with
+`seq` / `ite` / `loop` / `stop` (return, raise).  `arun` is the forward may-alias analysis: the state is the set of names that may
+hold the tracked object; branches are joined by union; a loop is iterated to a post-fixpoint (checked — if it is not reached within
+the fuel the verdict is "may modify").  `C20_flow_sound` (Props/C20.lean) proves it against the path semantics `Exec`. -/
+/-- `k` rounds of `S ↦ S ∪ step S` -/
+def iterJoin (step : List Nat → List Nat) : Nat → List Nat → List Nat
+  | 0, S => S
+  | k + 1, S => iterJoin step k (S ++ step S)
+
+open Gen.Effects in
+/-- may-alias analysis: (names that may hold the tracked object after the statement, may the object have been modified) -/
+def arun (fuel : Nat) : Flow → List Nat → List Nat × Bool
+  | .fresh x, S => (S.filter (· != x), false)
+  | .alias x ys, S => (if ys.any (S.contains ·) then x :: S.filter (· != x) else S.filter (· != x), false)
+  | .mutate x, S => (S, S.contains x)
+  | .skip, S => (S, false)
+  | .stop, _ => ([], false)
+  | .seq a b, S =>
+      let r := arun fuel a S
+      let q := arun fuel b r.1
+      (q.1, r.2 || q.2)
+  | .ite a b, S =>
+      let r := arun fuel a S
+      let q := arun fuel b S
+      (r.1 ++ q.1, r.2 || q.2)
+  | .loop a, S =>
+      let H := iterJoin (fun acc => (arun fuel a acc).1) fuel S
+      let r := arun fuel a H
+      if r.1.all (H.contains ·) then (H, r.2) else ([], true)
+
+open Gen.Effects in
+/-- parameters (by position) of a tabled function that the analysis says may be modified: parameter `p` is tracked by starting from
+    the state `{p}` (names `0 … k-1` are the parameters) -/
+def flowMutated (f : FlowInfo) : List String :=
+  (f.params.zipIdx.filter (fun pi => (arun (f.names + 1) f.body [pi.2]).2)).map (·.1)
+
+def findFlow (name : String) : Option Gen.Effects.FlowInfo := Gen.Effects.flows.find? (fun f => f.fn == name)
+
 def handle (toks : List String) : Option String :=
   match toks with
+  | ["c20.flow", name] =>
+      match findFlow name with
+      | some f => some ("ok " ++ ",".intercalate f.params ++ " " ++ (if (flowMutated f).isEmpty then "-" else ",".intercalate (flowMutated f)))
+      | none => some "err noflow"
   | ["c20.inputs", name] =>
       match findCache name with
       | some c => some ("ok " ++ ",".intercalate c.usedParams ++ " " ++ ",".intercalate c.keyParams)
